@@ -195,13 +195,14 @@ class _ReadSourceGenerator:
                 if size is None:
                     raise TypeError(f"Unsupported type for bit field: {field_type}")
 
-                if not prev_was_bits:
+                if not prev_was_bits or bits_remaining == 0 or prev_bits_type != field_type:
+                    # This field starts a new storage unit, which is when the tracked offset advances
                     prev_bits_type = field_type
-                    prev_was_bits = True
-
-                if bits_remaining == 0 or prev_bits_type != field_type:
-                    bits_remaining = (size * 8) - field.bits
+                    bits_remaining = size * 8
                     bits_rollover = True
+
+                prev_was_bits = True
+                bits_remaining -= field.bits
 
                 yield from flush()
                 yield from align_to_field(field)
